@@ -165,7 +165,11 @@ class BaseJob(ABC, Generic[T]):
             f_args = "(?)"
         return (
             self.type.name if self.max_attempts != 1 else "ONCE",
-            self.handle.__qualname__ if self.alias is None else self.alias,
+            (
+                getattr(self.handle, "__qualname__", type(self.handle).__qualname__)
+                if self.alias is None
+                else self.alias
+            ),
             f_args,
             str(self.datetime)[:19],
             str(self.datetime.tzname()),
